@@ -52,7 +52,8 @@ CLAIMED = {
         'level': 'Decides for every program whether values can leak between instances: the descriptor object is per class, so the storage its '
                  '__get__/__set__ touch must be selected by their instance parameter. A dataflow fact about two small methods.',
         'note': 'Trusted: Python descriptor protocol. The default value path (0 until assigned) is checked at the metaclass call site.',
-        'technique': SA + 'def-use dataflow from the instance/value parameters to the store target and to every returned value',
+        'technique': SA + 'def-use dataflow from the instance/value parameters to the store target and to every returned value'
+                     + '; every reaching definition of the store\'s container is the instance\'s own',
     },
     'C30': {
         'level': 'Decides the creation race for every schedule: test-empty and assign of the lazily created instance are in one critical section '
@@ -64,14 +65,16 @@ CLAIMED = {
         'level': 'Decides for every interleaving that a rejected timed source never runs: no CFG path through thread.start() reaches the rejection, the '
                  'admission test dominates the start, tracked sources are untouched on the rejecting path, and a started source is always tracked.',
         'note': 'Trusted: a Thread does nothing before start(). Capacity race between two concurrent timed posts at 499/500 is not armed (see DESIGN).',
-        'technique': SA + 'reachability / dominance / path counting on the CFG of the timed-post routine',
+        'technique': SA + 'reachability / dominance / path counting on the CFG of the timed-post routine'
+                     + '; reaching definitions of the flag cleared on the rejection path; admission limit == maxlen',
     },
     'C32': {
         'level': 'Decides writer/reader agreement between the trace formatter and stripped(): the full alphabet of timestamps the writer can emit is '
                  'removed exactly by the reader regex and nothing else is, and both branches of stripped() normalise identically. The "exactly '
                  'when" over arbitrary perturbed inputs is not decided.',
         'note': 'Trusted: strftime digit directives emit ASCII digits. Regex/format literals are evaluated by the stdlib on a finite alphabet-covering set.',
-        'technique': SA + 'constant evaluation of writer format and reader regex literals over the timestamp alphabet + CFG sibling comparison of the two branches',
+        'technique': SA + 'constant evaluation of writer format and reader regex literals over the timestamp alphabet + CFG sibling comparison of the two branches'
+                     + '; helpers followed through decorators; no memoised helper returns a mutable container',
     },
     'C04': {
         'level': 'Decides the structural necessary conditions of exactly-once, in-order dispatch with no lost wake-up and no overlapping steps: the '
@@ -95,7 +98,8 @@ CLAIMED = {
                  'wrappers, both branches of the thread-running selector, payload-tuple writer/reader agreement with the meta arms of top(), and '
                  'an identity-keyed "already subscribed" guard.',
         'note': 'Not decided: arrival at the chart under all delivery schedules (fabric side: C06, placement: C09).',
-        'technique': SA + 'path counting through decorator wrappers, branch analysis, interprocedural key-dependence slice of the guard, namedtuple field agreement',
+        'technique': SA + 'path counting through decorator wrappers, branch analysis, interprocedural key-dependence slice of the guard, namedtuple field agreement'
+                     + '; hand-over atoms of the run-time subscription (nothing but the keyed already-subscribed test may skip it)',
     },
     'C14': {
         'level': 'Decides that a queued chart is a deque driven by the same operations: ends of post_fifo/post_lifo relative to the consumer end read '
@@ -124,7 +128,8 @@ CLAIMED = {
                  'spy-wrapped.',
         'note': 'Assumes H4 (handlers cannot reach wrapper locals). Behavioural equality of runs is not executed; it follows from the wrappers being '
                 'transparent.',
-        'technique': SA + 'exactly-once path counting on wrapper CFGs, argument/result forwarding dataflow, attribute-path effect sets, dominance of the instrumented test',
+        'technique': SA + 'exactly-once path counting on wrapper CFGs, argument/result forwarding dataflow, attribute-path effect sets, dominance of the instrumented test'
+                     + '; spy-decoration detection rests on evidence specific to the spy_on wrapper',
     },
     'C06': {
         'level': 'Decides the registry and delivery discipline for all subscribe/publish sequences, including distinct queues with equal contents: '
@@ -146,14 +151,16 @@ CLAIMED = {
                  'guard re-reads the flag; plus per-iteration order sleep < re-test < post and the def-use wiring of period/times/deferred/tag. '
                  'The firing instants are NOT decided.',
         'note': 'Not decided: wall-clock instants, sleep overshoot, drift. Assumes nobody else clears the run flag (cancellation is C11/C12).',
-        'technique': SA + 'per-iteration path counting, comparison-operator table of the termination test, def-use wiring from API parameters to thread reads',
+        'technique': SA + 'per-iteration path counting, comparison-operator table of the termination test, def-use wiring from API parameters to thread reads'
+                     + '; finite evaluation of post_fifo/post_lifo over period x times x deferred with recording stubs',
     },
     'C11': {
         'level': 'Decides that cancellation matches by equality for every way of obtaining the id/name, that the rotate/pop scan inspects every tracked '
                  'source exactly once (one of pop()/rotate(1) per iteration, len iterations, inspected element [-1]), and that only matched sources '
                  'are stopped. The test-then-post window of the timer thread is an open finding.',
         'note': 'Known finding F-C11b (one stray post after cancel returns) is reported as KNOWN-FINDING.',
-        'technique': SA + 'identity-vs-equality operator census, exactly-one-of path rule per loop iteration, guard analysis, lockset look at the timer',
+        'technique': SA + 'identity-vs-equality operator census, exactly-one-of path rule per loop iteration, guard analysis, lockset look at the timer'
+                     + '; admission limit == maxlen of the tracking deque; post-sleep re-test as a cut of the timer loop',
     },
     'C12': {
         'level': 'Decides the orderings that make stop() terminate and complete for every interleaving: flag cleared before the wake-up, wake-up before '
@@ -161,7 +168,8 @@ CLAIMED = {
                  'dispatch the stop item; and by effect analysis that stop() touches only this object. "No post after stop() returns" is limited by the '
                  'open finding F-C11b.',
         'note': 'Trusted: Thread.join semantics; the wake-up token protocol (C04).',
-        'technique': SA + 'dominance / post-dominance on the CFG of stop(), snapshot-vs-live alias rule, attribute-path write set of stop()',
+        'technique': SA + 'dominance / post-dominance on the CFG of stop(), snapshot-vs-live alias rule, attribute-path write set of stop()'
+                     + '; run flag re-read between two consumer steps; admission limit == maxlen; timer re-test',
     },
     'C13': {
         'level': 'Decides "at most one delivery thread per kind for every sequence of start/stop/clear calls" through its per-path conditions: the helper '
@@ -169,7 +177,8 @@ CLAIMED = {
                  'the shared event before waking and wakes before joining with the same (handle, queue) pairs, is_alive is the conjunction (evaluated '
                  'on all 9 handle states), fabric and active objects share one run event, and nothing rebinds what the threads hold.',
         'note': 'Trusted: Thread.is_alive/join semantics. Delivery after restart relies on C06.',
-        'technique': SA + 'return-path completeness, dominance, finite evaluation of is_alive over handle states, singleton/alias census',
+        'technique': SA + 'return-path completeness, dominance, finite evaluation of is_alive over handle states, singleton/alias census'
+                     + '; stop analysis with or without the nested helper; wake-up item of the class publish() queues',
     },
     'C01': {
         'level': 'Decides, for every nesting depth and every depth of initial transition (loops are solved by widening, not unrolled), the buffer and '
@@ -216,14 +225,16 @@ CLAIMED = {
                  'reflected before and end state after the step and only this step\'s tuples inspected; and outcome completeness: IGNORED always '
                  'sets event.ignored, and every package handler that is not spy-wrapped and can answer HANDLED records a hook tuple.',
         'note': 'Assumes user handlers are spy-wrapped when the chart is instrumented (spy_on_start switches instrumentation off otherwise).',
-        'technique': SA + 'path counting, guard analysis, outcome-completeness rule over dispatch and every top() override',
+        'technique': SA + 'path counting, guard analysis, outcome-completeness rule over dispatch and every top() override'
+                     + '; trace() is a pure rendering of the live trace deque (effects + iteration source)',
     },
     'C21': {
         'level': 'Decides clock-independence: no comparison of clock-derived values controls a live callback (field-based taint), newness of a trace '
                  'record is decided by identity with the remembered record and the memory is updated on every path, live spy loops iterate a '
                  'snapshot with one callback per line after the step, and active-object output funnels through one FIFO queue and one writer thread.',
         'note': 'Two writer threads from concurrently starting objects are outside this property\'s quantifier. User callbacks not analysed.',
-        'technique': SA + 'field-based taint from datetime.now() to branch conditions, identity/update-on-every-path rule, loop-shape rules',
+        'technique': SA + 'field-based taint from datetime.now() to branch conditions, identity/update-on-every-path rule, loop-shape rules'
+                     + '; writer thread: take/callback pairing over simple paths, wake-up flag cleared before the queue is examined',
     },
     'C22': {
         'level': 'Decides for every chart and argument that is_in/child_state can only send SUPER, write only the cursor, restore it on every exit, '
@@ -245,7 +256,8 @@ CLAIMED = {
                  'initial-transition walks carry the guard, and (zone domain) that init never reads a negative index. A hang or silently wrong walk '
                  'on a malformed chart is a missing guard, visible for every chart shape.',
         'note': 'H1 for top (answers IGNORED, does not move the cursor). Malformed charts other than the two kinds the property names are not covered.',
-        'technique': SA + 'loop inventory with termination arguments, None-discipline dataflow over handler-call sites, sibling comparison, zone-domain index proofs',
+        'technique': SA + 'loop inventory with termination arguments, None-discipline dataflow over handler-call sites, sibling comparison, zone-domain index proofs'
+                     + '; exception transparency of every layer between the public calls and the processor (no return in finally, no catch-all without re-raise)',
     },
     'C17': {
         'level': 'Decides the structural necessary conditions of "template, Factory and to_code builds behave like the hand-written chart": the '
@@ -254,7 +266,8 @@ CLAIMED = {
                  'protocol-conforming handler, and Factory resolves names through a subscriptable table. Equality of the action logs of the three '
                  'builds over all event sequences is translation validation by execution and is NOT decided.',
         'note': 'Not decided: behavioural equality over event sequences. The fragment enumeration is complete for the literals present in to_code.',
-        'technique': SA + 'protocol-shape matching on ASTs, registry key-structure agreement, exhaustive assembly and parsing of emitted code fragments, field-type discipline',
+        'technique': SA + 'protocol-shape matching on ASTs, registry key-structure agreement, exhaustive assembly and parsing of emitted code fragments, field-type discipline'
+                     + '; finite evaluation of to_code over registry contents and comparison of the parsed text with the registries; no unlocked copy/modify/store-back of a registry entry',
     },
 }
 
